@@ -1,8 +1,8 @@
 #!/bin/bash
-# sweep.sh <tier> <seed>... : runs every check at the given tier and seeds, one summary line each (used with `vp run --with-repo`)
+# sweep.sh <tier> <seed>... : runs every check (or those in SWEEP_IDS) at the given tier and seeds, one summary line each (used with `vp run --with-repo`)
 tier=$1; shift
 for s in "$@"; do
-  for id in C01 C02 C03 C04 C05 C06 C07 C08 C09 C10 C11 C12 C13 C14 C15 C16 C17 C18 C19 C20; do
+  for id in ${SWEEP_IDS:-C01 C02 C03 C04 C05 C06 C07 C08 C09 C10 C11 C12 C13 C14 C15 C16 C17 C18 C19 C20}; do
     t0=$(date +%s)
     VERIF_SEED=$s ./run $id $tier > sweep.$id.$tier.$s.log 2>&1; rc=$?
     echo "seed=$s $id $tier exit=$rc $(( $(date +%s)-t0 ))s $(grep -c '^VIOLATION' sweep.$id.$tier.$s.log) violations"
